@@ -70,8 +70,10 @@ Step(cfg, g, e, obs) ==
          IF e.none THEN base
          ELSE IF e.ok THEN [base EXCEPT !.phase = "streaming",
                                         \* a change the active made and pushed while this attachment was being set up (after
-                                        \* the stream was registered) is owed on this stream
-                                        !.pend = IF e.middid THEN <<[k |-> e.midop, id |-> e.midid, v |-> e.midv]>> ELSE <<>>]
+                                        \* the stream was registered) is owed on this stream - unless the standby was handed
+                                        \* it from the stream before the attachment was complete (midhanded): then nothing
+                                        \* is under way any more and the Convergence clause judges the tables at once
+                                        !.pend = IF e.middid /\ ~e.midhanded THEN <<[k |-> e.midop, id |-> e.midid, v |-> e.midv]>> ELSE <<>>]
               ELSE [base EXCEPT !.phase = "down", !.pend = <<>>]
     [] e.op = "disconnect" -> [base EXCEPT !.phase = "down", !.pend = <<>>]
     [] e.op = "deliver" ->
